@@ -275,7 +275,6 @@ Definition pair_of (o : out) : str * str :=
 (** ---- classification of the known violations of C13 ---- *)
 Inductive finding :=
 | bare_cr_header     (* a header value with a bare CR reaches a quoted string *)
-| flag_atom          (* a stored flag containing a parenthesis / quote / brace *)
 | item_suppressed    (* a requested item is not answered because of substring cross-talk *)
 | rfc822_renamed     (* RFC822 is answered under the name BODY[] *)
 | partial_range.     (* <a.b>: origin not reported / range ignored / applied to BODY[TEXT] of another item *)
@@ -291,5 +290,7 @@ Definition flag_byte (c : ascii) : bool :=
   negb (Ascii.eqb c LP) && negb (Ascii.eqb c RP) && negb (Ascii.eqb c LB)
   && negb (Ascii.eqb c DQ) && negb (Ascii.eqb c CR) && negb (Ascii.eqb c LF).
 
-Definition classify_flags (flags : str) : option finding :=
-  if forallb flag_byte flags then None else Some flag_atom.
+(** the stored flag string consists of flag bytes and blanks; since fix e64d29e
+    STORE / UID STORE / APPEND refuse anything else (message.ValidFlag), so this
+    is an invariant of the store, no longer a finding class *)
+Definition flags_plain (flags : str) : bool := forallb flag_byte flags.
